@@ -282,9 +282,9 @@ theorem writeCycle5_live {s : State} {a : Arch} (hb : Back s.base a)
   unfold Model.Mvp5.writeCycle; simp only [h, bind, Except.bind, pure, Except.pure]
 
 theorem finish5_ok {s : State} {a : Arch} (hk : Halt) (hb : Back s.base a) :
-    ∃ s', Model.Mvp5.finish s hk = .ok (s', .done hk) := by
-  obtain ⟨b, h⟩ := finish_ok hk hb
-  refine ⟨{ s with base := b }, ?_⟩
+    ∃ s', Model.Mvp5.finish s hk = .ok (s', .done hk) ∧ s'.base.mmu.l1d.lines.length ≤ 16 := by
+  obtain ⟨b, h, hl⟩ := finish_ok hk hb
+  refine ⟨{ s with base := b }, ?_, hl⟩
   unfold Model.Mvp5.finish; simp only [h, bind, Except.bind, pure, Except.pure]
 
 theorem euPart_eu {b b' : Model.Mvp4.State} (h : b'.eu = b.eu) (fw : Nat) : euPart b' fw = euPart b fw := by
@@ -293,9 +293,11 @@ theorem euPart_eu {b b' : Model.Mvp4.State} (h : b'.eu = b.eu) (fw : Nat) : euPa
 /-- what a tick of MVP-5 guarantees for liveness, by its outcome -/
 def LivePost5 (app : App) (s : State) (a : Arch) (s' : State) : Event → Prop
   | .running => (Rel5 app s' a ∧ Live5 app s' ∧ phi5 app s' < phi5 app s) ∨
-      (∃ a1 c, stepArch dc app a = .next a1 c ∧ Rel5 app s' a1 ∧ Live5 app s')
+      (∃ a1 c, stepArch dc app a = .next a1 c ∧ Rel5 app s' a1 ∧ Live5 app s' ∧ Fresh s'.base)
   | .done (.panic _) => False
-  | .done _ => True
+  | .done .err => True
+  | .done .ret => (∃ c, stepArch dc app a = .halt .ret c) ∧ s'.base.mmu.l1d.lines.length ≤ 16
+  | .done .offEnd => s'.base.mmu.l1d.lines.length ≤ 16
 
 
 theorem live_of_parts {app : App} {b : Model.Mvp4.State}
@@ -459,8 +461,8 @@ theorem cycleM5_live_normal {app : App} {s : State} {a : Arch} (hsmall : app.ins
       simp only [h4, bind, Except.bind]
       by_cases hic : Model.Mvp5.isComplete { s3 with base := b4 } = true
       · simp only [hic, if_true]
-        obtain ⟨s', hf⟩ := finish5_ok (s := { s3 with base := b4 }) .offEnd hb4
-        exact ⟨s', .done .offEnd, hf, trivial⟩
+        obtain ⟨s', hf, hlines⟩ := finish5_ok (s := { s3 with base := b4 }) .offEnd hb4
+        exact ⟨s', .done .offEnd, hf, hlines⟩
       · simp only [hic, Bool.false_eq_true, if_false, pure, Except.pure]
         refine ⟨{ s3 with base := b4 }, .running, rfl, Or.inl ⟨⟨hb4, ?_⟩, hlive4, ?_⟩⟩
         · show FrontRel5 app { s3 with base := b4 } a b4.mode
@@ -485,10 +487,12 @@ theorem cycleM5_live_normal {app : App} {s : State} {a : Arch} (hsmall : app.ins
       simp only [h4, bind, Except.bind]
       by_cases hic : Model.Mvp5.isComplete { s3 with base := b4 } = true
       · simp only [hic, if_true]
-        obtain ⟨s', hf⟩ := finish5_ok (s := { s3 with base := b4 }) .offEnd hb4
-        exact ⟨s', .done .offEnd, hf, trivial⟩
+        obtain ⟨s', hf, hlines⟩ := finish5_ok (s := { s3 with base := b4 }) .offEnd hb4
+        exact ⟨s', .done .offEnd, hf, hlines⟩
       · simp only [hic, Bool.false_eq_true, if_false, pure, Except.pure]
-        refine ⟨{ s3 with base := b4 }, .running, rfl, Or.inr ⟨a', c, hstep, ⟨hb4, ?_⟩, hlive4⟩⟩
+        refine ⟨{ s3 with base := b4 }, .running, rfl, Or.inr ⟨a', c, hstep, ⟨hb4, ?_⟩, hlive4,
+          ⟨fun hx => (by have : b4.mode = .drainRet := hx; rw [hmode4] at this; cases this),
+           fun _ => (by show b4.eu.processing = false ∧ b4.eu.pendingMemoryRead = false; rw [g_eu]; exact ⟨hproc3, hpend3⟩)⟩⟩⟩
         show FrontRel5 app { s3 with base := b4 } a' b4.mode
         rw [hmode4]; exact hn4
   | ret =>
@@ -525,8 +529,8 @@ theorem cycleM5_live_normal {app : App} {s : State} {a : Arch} (hsmall : app.ins
         omega
     · have hdc' : Model.Mvp5.drainCond { s3 with base := b4 } = false := by simpa using hdc
       simp only [hdc', Bool.false_eq_true, if_false]
-      obtain ⟨s', hf⟩ := finish5_ok (s := { s3 with base := b4 }) .ret hb4
-      exact ⟨s', .done .ret, hf, trivial⟩
+      obtain ⟨s', hf, hlines⟩ := finish5_ok (s := { s3 with base := b4 }) .ret hb4
+      exact ⟨s', .done .ret, hf, hret, hlines⟩
   | flush pc =>
     obtain ⟨hiwf3, hfurem3, hfupc3, hdbus3, hbtb3⟩ := hfront3 (fun h => by cases h)
     obtain ⟨a', c, hstep, hpc, hb3, hpend3, hmem3⟩ := hpost
@@ -536,7 +540,7 @@ theorem cycleM5_live_normal {app : App} {s : State} {a : Arch} (hsmall : app.ins
     simp only [h4, bind, Except.bind]
     by_cases hdc : Model.Mvp5.drainCond { s3 with base := b4 } = true
     · simp only [hdc, if_true, pure, Except.pure]
-      refine ⟨_, .running, rfl, Or.inr ⟨a', c, hstep, ⟨hb4, ?_⟩, ?_⟩⟩
+      refine ⟨_, .running, rfl, Or.inr ⟨a', c, hstep, ⟨hb4, ?_⟩, ?_, ⟨fun hx => (nomatch hx), fun hx => (nomatch hx)⟩⟩⟩
       · show a'.pc = pc ∧ b4.eu.pendingMemoryRead = false ∧ b4.eu.memory = none
         rw [g_eu]; exact ⟨hpc, hpend3, hmem3⟩
       · exact { live := live_of_parts (by show Proofs.Mvp3.IWf 64 b4.mmu.l1i; rw [g_mmu]; exact hiwf3)
@@ -552,7 +556,9 @@ theorem cycleM5_live_normal {app : App} {s : State} {a : Arch} (hsmall : app.ins
         (by show b4.eu.memory = none; rw [g_eu]; exact hmem3)
       have hmodef : (Model.Mvp5.flushAll { s3 with base := b4 } pc).base.mode = .normal := by
         show b4.mode = _; rw [g_mode]; exact hmode3
-      refine ⟨_, .running, rfl, Or.inr ⟨a', c, hstep, ⟨hbf, by rw [hmodef]; exact hnf'⟩, ?_⟩⟩
+      refine ⟨_, .running, rfl, Or.inr ⟨a', c, hstep, ⟨hbf, by rw [hmodef]; exact hnf'⟩, ?_,
+        ⟨fun hx => (by rw [hmodef] at hx; cases hx),
+         fun _ => ⟨rfl, (by show b4.eu.pendingMemoryRead = false; rw [g_eu]; exact hpend3)⟩⟩⟩⟩
       exact { live := live_of_parts (by show Proofs.Mvp3.IWf 64 b4.mmu.l1i; rw [g_mmu]; exact hiwf3)
                 (fun hx => by simp [Model.Mvp5.flushAll, Model.Mvp4.flushAll, Model.Mvp4.FetchUnit.flush] at hx) hwc4
                 (fun _ hx => by cases hx)
@@ -597,8 +603,8 @@ theorem cycleM5_live_drainRet {app : App} {s : State} {a : Arch} (hm : s.base.mo
       rw [hmode4, hm]; exact hWlt hdc0
   · have hdc' : Model.Mvp5.drainCond { s with base := b4 } = false := by simpa using hdc
     simp only [hdc', Bool.false_eq_true, if_false]
-    obtain ⟨s', hf⟩ := finish5_ok (s := { s with base := b4 }) .ret hb4
-    exact ⟨s', .done .ret, hf, trivial⟩
+    obtain ⟨s', hf, hlines⟩ := finish5_ok (s := { s with base := b4 }) .ret hb4
+    exact ⟨s', .done .ret, hf, hret, hlines⟩
 
 theorem cycleM5_live_drainFlush {app : App} {s : State} {a : Arch} {pc : Word} (hm : s.base.mode = .drainFlush pc)
     (hR : Rel5 app s a) (hlv : Live5 app s) (hapc : a.pc.toNat ≤ 4 * app.instrs.length) :
@@ -730,7 +736,7 @@ theorem ends5_at {app : App} (hsmall : app.instrs.length < 250) (hnf : NoFwd app
     obtain ⟨s', ev, hc, hpost⟩ := cycle5_live hsmall hR hlv hnf hok hgood hapc hnext
     cases ev with
     | running =>
-      rcases hpost with ⟨_, _, hlt⟩ | ⟨a1, c, hst, hR', hlv'⟩
+      rcases hpost with ⟨_, _, hlt⟩ | ⟨a1, c, hst, hR', hlv', _⟩
       · omega
       · exact ends5_of_running hc (hcont a1 c s' (n + 1) hst hR' hlv')
     | done hk' =>
@@ -744,7 +750,7 @@ theorem ends5_at {app : App} (hsmall : app.instrs.length < 250) (hnf : NoFwd app
     obtain ⟨s', ev, hc, hpost⟩ := cycle5_live hsmall hR hlv hnf hok hgood hapc hnext
     cases ev with
     | running =>
-      rcases hpost with ⟨hR', hlv', hlt⟩ | ⟨a1, c, hst, hR', hlv'⟩
+      rcases hpost with ⟨hR', hlv', hlt⟩ | ⟨a1, c, hst, hR', hlv', _⟩
       · exact ends5_of_running hc (ih s' (n + 1) (by omega) hR' hlv')
       · exact ends5_of_running hc (hcont a1 c s' (n + 1) hst hR' hlv')
     | done hk' =>
